@@ -6,6 +6,7 @@ Line protocol (state is threaded through the lines of one run):
   new                                   -> ok                       (fresh database, no file)
   store <pt> <name>=<val> ...           -> state line
   reload                                -> state line   (new Database filled from the file)
+  update                                -> state line   (update_from_hdf on the current database)
   export a|w                            -> state line   (or `E` when the model raises; the state is then frozen)
   ds <var>;<var>;...                    -> hdf=<ds|E> csv=<ds|E>    (design-space round trips)
 pt   : i:<rats> | f:<rats>              (dtype, values)
@@ -133,6 +134,13 @@ def stepLine (st : DState) (line : String) : DState × String :=
     | none => (none, "E")
     | some s =>
       match doExport s (m == "a") with
+      | some s' => (some s', "in=1 " ++ showState s')
+      | none => (none, "E")
+  | ["update"] =>
+    match st with
+    | none => (none, "E")
+    | some s =>
+      match doUpdate id s with
       | some s' => (some s', "in=1 " ++ showState s')
       | none => (none, "E")
   | ["reload"] =>
